@@ -234,7 +234,8 @@ def part_c(rep, hbin, tier, seed, cov):
                           "descriptor_text_length_hist(100s)": hist.get("desc-len", {}),
                           "key_forms": hist.get("key-form", {}),
                           "descriptor_parser_reject_classes": hist.get("desc-reject", {}),
-                          "wallet_policy_key_shapes": hist.get("wallet-policy-keys", {})}
+                          "wallet_policy_key_shapes": hist.get("wallet-policy-keys", {}),
+                          "deep_taproot_tree_shapes": sorted(hist.get("tr-deep", {}).keys())}
     cov.setdefault("samples", []).extend(re.findall(r"^SAMPLE (.*)$", p.stdout, flags=re.M)[:10])
     n = 0
     for m in re.finditer(r"^FAIL key=(\S+) what=(.*?) input=(.*)$", p.stdout, flags=re.M):
@@ -242,6 +243,8 @@ def part_c(rep, hbin, tier, seed, cov):
         n += 1
         obj = {"property": PID, "part": "round-trip", "key": key, "what": what, "input": inp, "seed": seed, "tier": tier}
         mctx = re.search(r"\((bare|legacy|segwitv0|tap)\)", what)
+        if key.startswith("rt:tr-deep:"):
+            obj["kind_line"] = "trdeep " + inp
         if key.startswith("rt:ms:") and mctx:
             text = inp.split(" (from ")[0].split(" || ")[0]
             obj["kind_line"] = "%s %s" % ({"bare": "ms-bare", "legacy": "ms-legacy", "segwitv0": "ms-segwit", "tap": "ms-tap"}[mctx.group(1)], text)
@@ -288,7 +291,7 @@ def replay_file(rep, hbin, tier, path):
         q = _run_engine(hbin, ["rt", "1", tier, tmp], tier)
         out = re.findall(r"^REPLAY kind=(\S+) (.*)$", q.stdout, flags=re.M)
         for kind, res in out:
-            bad = ("panic" in res) or ("reparse-error" in res)
+            bad = ("panic" in res) or ("reparse-error" in res) or ("verdict=FAIL" in res)
             m = re.search(r"dump=(.*?) printed=(.*?) redump=(.*?) reprinted=(.*)$", res)
             if m and (m.group(1) != m.group(3) or m.group(2) != m.group(4)):
                 bad = True
